@@ -5,6 +5,7 @@ import (
 	"fmt"
 	"io"
 	"os"
+	"strings"
 
 	"github.com/go-git/go-billy/v5"
 	"github.com/go-git/go-billy/v5/util"
@@ -89,13 +90,19 @@ func (pc *PersistedClock) read() error {
 		return err
 	}
 
+	// A clock file holding no complete value (left empty by a crash between the truncation
+	// and the write of Write(), or holding only the first digits of the value after a torn
+	// write: the value is complete when its terminating newline is there) is handled like a
+	// missing one, so that the clock gets re-created and witnessed again from the stored
+	// entities instead of making the repository impossible to open, or of silently going
+	// back in time.
+	if !strings.HasSuffix(string(content), "\n") {
+		return ErrClockNotExist
+	}
+
 	var value uint64
 	n, err := fmt.Sscanf(string(content), "%d", &value)
 	if err != nil || n != 1 {
-		// A clock file holding no value (for instance left empty by a crash between the
-		// truncation and the write of Write()) is handled like a missing one, so that
-		// the clock gets re-created and witnessed again from the stored entities instead
-		// of making the repository impossible to open.
 		return ErrClockNotExist
 	}
 
@@ -105,6 +112,6 @@ func (pc *PersistedClock) read() error {
 }
 
 func (pc *PersistedClock) Write() error {
-	data := []byte(fmt.Sprintf("%d", pc.counter))
+	data := []byte(fmt.Sprintf("%d\n", pc.counter))
 	return util.WriteFile(pc.root, pc.filePath, data, 0644)
 }
